@@ -186,8 +186,11 @@ class Ser:
         if ref is None:
             raise Unspecified("unreferenced length field")
         v = ctx["obj"].get(ref.get("name"))
-        if self._optional_skip(ins, 0, ctx):
-            return
+        if is_bool_attr(ins, "optional"):
+            # an optional length field is absent exactly when the field it measures is absent
+            ctx["missing"] = ctx["missing"] or v is None
+            if ctx["missing"]:
+                return
         if v is None:
             raise Unspecified("length of an absent optional field")
         n = len(v) - int(ins.get("offset", "0"))
